@@ -456,6 +456,8 @@ struct StStats {
 	held_across_commit: u64,
 	resizes: u64,
 	max_keys_space: u64,
+	resizes_immediate: u64,
+	resizes_deferred: u64,
 	sigs: Vec<(String, bool)>,
 	samples: Vec<Value>,
 	fails: Vec<(Fail, Value)>,
@@ -482,11 +484,80 @@ impl StStats {
 		self.held_across_commit += o.held_across_commit;
 		self.resizes += o.resizes;
 		self.max_keys_space = self.max_keys_space.max(o.max_keys_space);
+		self.resizes_immediate += o.resizes_immediate;
+		self.resizes_deferred += o.resizes_deferred;
 		self.sigs.extend(o.sigs);
 		if self.samples.len() < 4 {
 			self.samples.extend(o.samples);
 		}
 		self.fails.extend(o.fails);
+	}
+}
+
+impl StStats {
+	fn to_json(&self) -> Value {
+		json!({
+			"ops": self.ops.iter().map(|(k, v)| (k.to_string(), *v)).collect::<BTreeMap<String, u64>>(),
+			"programs": self.programs, "sessions": self.sessions, "reopen_cmp": self.reopen_cmp,
+			"outside_full_cmp": self.outside_full_cmp, "chains": self.chains.iter().cloned().collect::<Vec<_>>(),
+			"top_commit": self.top_commit, "top_drop": self.top_drop, "child_commit": self.child_commit,
+			"child_drop": self.child_drop, "held_iters": self.held_iters, "held_across_commit": self.held_across_commit,
+			"resizes": self.resizes, "max_keys_space": self.max_keys_space,
+			"sigs": self.sigs.iter().map(|(s, b)| json!([s, b])).collect::<Vec<_>>(),
+			"samples": self.samples,
+			"fails": self.fails.iter().map(|(f, r)| json!({"violation": f.violation, "sig": f.sig, "what": f.what, "replay": r})).collect::<Vec<_>>(),
+			"resizes_immediate": LOG_RESIZE_IMMEDIATE.load(Ordering::SeqCst),
+			"resizes_deferred": LOG_RESIZE_WAIT.load(Ordering::SeqCst),
+		})
+	}
+	/// Counters only (op names are leaked into 'static strings: small fixed set).
+	fn from_json(v: &Value) -> StStats {
+		let mut st = StStats::default();
+		let u = |k: &str| v.get(k).and_then(|x| x.as_u64()).unwrap_or(0);
+		if let Some(o) = v.get("ops").and_then(|x| x.as_object()) {
+			for (k, x) in o {
+				let name: &'static str = Box::leak(k.clone().into_boxed_str());
+				st.ops.insert(name, x.as_u64().unwrap_or(0));
+			}
+		}
+		st.programs = u("programs");
+		st.sessions = u("sessions");
+		st.reopen_cmp = u("reopen_cmp");
+		st.outside_full_cmp = u("outside_full_cmp");
+		st.top_commit = u("top_commit");
+		st.top_drop = u("top_drop");
+		st.child_commit = u("child_commit");
+		st.child_drop = u("child_drop");
+		st.held_iters = u("held_iters");
+		st.held_across_commit = u("held_across_commit");
+		st.resizes = u("resizes");
+		st.max_keys_space = u("max_keys_space");
+		st.resizes_immediate = u("resizes_immediate");
+		st.resizes_deferred = u("resizes_deferred");
+		if let Some(a) = v.get("chains").and_then(|x| x.as_array()) {
+			st.chains = a.iter().filter_map(|x| x.as_str().map(|s| s.to_string())).collect();
+		}
+		if let Some(a) = v.get("sigs").and_then(|x| x.as_array()) {
+			for x in a {
+				st.sigs.push((x[0].as_str().unwrap_or("").to_string(), x[1].as_bool().unwrap_or(false)));
+			}
+		}
+		if let Some(a) = v.get("samples").and_then(|x| x.as_array()) {
+			st.samples = a.clone();
+		}
+		if let Some(a) = v.get("fails").and_then(|x| x.as_array()) {
+			for x in a {
+				st.fails.push((
+					Fail {
+						violation: x["violation"].as_bool().unwrap_or(false),
+						sig: x["sig"].as_str().unwrap_or("?").to_string(),
+						what: x["what"].as_str().unwrap_or("?").to_string(),
+					},
+					x["replay"].clone(),
+				));
+			}
+		}
+		st
 	}
 }
 
@@ -907,6 +978,24 @@ impl Sess {
 	}
 }
 
+// progress of the single-thread session threads (hang watchdog of the st worker)
+const ST_MAX_THREADS: usize = 16;
+static ST_PROGRESS: [AtomicU64; ST_MAX_THREADS] = [const { AtomicU64::new(0) }; ST_MAX_THREADS];
+static ST_STATE: [AtomicU64; ST_MAX_THREADS] = [const { AtomicU64::new(0) }; ST_MAX_THREADS];
+static ST_SESSION: [AtomicU64; ST_MAX_THREADS] = [const { AtomicU64::new(0) }; ST_MAX_THREADS];
+static ST_DONE: [AtomicBool; ST_MAX_THREADS] = [const { AtomicBool::new(false) }; ST_MAX_THREADS];
+thread_local! {
+	static ST_TID: Cell<usize> = const { Cell::new(usize::MAX) };
+}
+/// state: 0 other, 1 in Store::batch(), 3 in Batch::commit(), 6 in Store::iter(), 10 in Store::new
+fn st_tick(state: u64) {
+	let t = ST_TID.with(|c| c.get());
+	if t < ST_MAX_THREADS {
+		ST_PROGRESS[t].fetch_add(1, Ordering::Relaxed);
+		ST_STATE[t].store(state, Ordering::Relaxed);
+	}
+}
+
 /// Run one level (top-level batch or child) of random operations.
 fn st_level(store: &Store, st: &mut Sess, batch: &mut Batch<'_>, depth: usize) -> Result<(), Fail> {
 	st.p_maxdepth = st.p_maxdepth.max(depth);
@@ -916,6 +1005,7 @@ fn st_level(store: &Store, st: &mut Sess, batch: &mut Batch<'_>, depth: usize) -
 			return Ok(());
 		}
 		st.ops_left -= 1;
+		st_tick(0);
 		let op = st.pick_op(depth);
 		match op {
 			Op::Put => {
@@ -1129,7 +1219,9 @@ fn st_program(store: &Store, st: &mut Sess) -> Result<(), Fail> {
 		st.p_tops += 1;
 		st.tr("batch()".into());
 		st.stats.op("batch");
+		st_tick(1);
 		let mut b = store.batch().map_err(|e| st.err("batch", &e))?;
+		st_tick(0);
 		st.model.begin();
 		st.level_chains.push(BTreeSet::new());
 		st.next_bid += 1;
@@ -1145,7 +1237,9 @@ fn st_program(store: &Store, st: &mut Sess) -> Result<(), Fail> {
 		st_level(store, st, &mut b, 0)?;
 		if st.prng.chance(2, 3) {
 			st.tr("top.commit".into());
+			st_tick(3);
 			b.commit().map_err(|e| st.err("commit", &e))?;
+			st_tick(0);
 			st.model.commit();
 			st.close_level('C');
 			st.stats.top_commit += 1;
@@ -1236,7 +1330,9 @@ fn st_session(dir: &str, seed: u64, sess_idx: u64, growth: bool, nprog: usize, d
 		let r = st_program(store.as_ref().unwrap(), &mut st).and_then(|_| {
 			// durability / no trace of dropped: drop the Store, reopen the same path, compare everything
 			st.held = None;
+			st_tick(1);
 			settle(store.as_ref().unwrap());
+			st_tick(10);
 			store = None;
 			match open_store(dir, max_readers) {
 				Ok(s) => store = Some(s),
@@ -1277,6 +1373,153 @@ fn st_session(dir: &str, seed: u64, sess_idx: u64, growth: bool, nprog: usize, d
 	}
 	drop(store);
 	st.stats
+}
+
+#[derive(Clone, Debug)]
+struct StParams {
+	seed: u64,
+	base: String,
+	secs: u64,
+	n_threads: usize,
+	n_sessions: u64,
+	n_growth: u64,
+	progs: usize,
+	growth_progs: usize,
+	/// run only this session (index, growth) - used to re-run a hung session alone
+	only: Option<(u64, bool)>,
+	hang_secs: u64,
+	out: Option<String>,
+}
+
+fn st_args(p: &StParams) -> Vec<String> {
+	vec![
+		"--worker-st".into(),
+		p.seed.to_string(),
+		p.base.clone(),
+		p.secs.to_string(),
+		p.n_threads.to_string(),
+		p.n_sessions.to_string(),
+		p.n_growth.to_string(),
+		p.progs.to_string(),
+		p.growth_progs.to_string(),
+		p.only.map(|o| o.0 as i64).unwrap_or(-1).to_string(),
+		p.only.map(|o| o.1 as u8).unwrap_or(0).to_string(),
+		p.hang_secs.to_string(),
+		p.out.clone().unwrap_or_default(),
+	]
+}
+
+/// All single-thread sessions, on `n_threads` threads, with a hang watchdog.
+fn st_phase(p: &StParams) -> StStats {
+	let deadline = Instant::now() + Duration::from_secs(p.secs);
+	let session_ctr = AtomicU64::new(0);
+	let growth_ctr = AtomicU64::new(0);
+	let total = Arc::new(Mutex::new(StStats::default()));
+	let all_done = Arc::new(AtomicBool::new(false));
+	let nt = p.n_threads.min(ST_MAX_THREADS);
+	let mon = {
+		let (total, all_done, p) = (total.clone(), all_done.clone(), p.clone());
+		std::thread::spawn(move || {
+			let mut last: Vec<(u64, Instant)> = (0..nt).map(|_| (0, Instant::now())).collect();
+			while !all_done.load(Ordering::SeqCst) {
+				std::thread::sleep(Duration::from_millis(250));
+				for t in 0..nt {
+					if ST_DONE[t].load(Ordering::SeqCst) {
+						continue;
+					}
+					let pr = ST_PROGRESS[t].load(Ordering::Relaxed);
+					if pr != last[t].0 {
+						last[t] = (pr, Instant::now());
+					} else if last[t].1.elapsed().as_secs() >= p.hang_secs {
+						let sess = ST_SESSION[t].load(Ordering::SeqCst);
+						let state = state_name(ST_STATE[t].load(Ordering::Relaxed));
+						eprintln!("\nHANG single-thread session {} state {}", sess, state);
+						let mut v = total.lock().map(|t| t.to_json()).unwrap_or(json!({}));
+						v["hang"] = json!({"session": sess % 1_000_000, "growth": sess >= 1_000_000, "state": state});
+						if let Some(out) = &p.out {
+							let _ = std::fs::write(out, v.to_string());
+						}
+						unsafe { libc::_exit(vcommon::monitor::EXIT_HANG) };
+					}
+				}
+			}
+		})
+	};
+	std::thread::scope(|sc| {
+		for t in 0..nt {
+			let (session_ctr, growth_ctr, total) = (&session_ctr, &growth_ctr, &total);
+			sc.spawn(move || {
+				init_thread();
+				ST_TID.with(|c| c.set(t));
+				let mut local = StStats::default();
+				loop {
+					if Instant::now() > deadline {
+						break;
+					}
+					let (idx, growth) = if let Some((i, g)) = p.only {
+						if t != 0 || session_ctr.fetch_add(1, Ordering::SeqCst) > 0 {
+							break;
+						}
+						(if g { 1_000_000 + i } else { i }, g)
+					} else if t < 2 && growth_ctr.load(Ordering::SeqCst) < p.n_growth {
+						// the first threads take the growth sessions first
+						let g = growth_ctr.fetch_add(1, Ordering::SeqCst);
+						if g < p.n_growth {
+							(1_000_000 + g, true)
+						} else {
+							continue;
+						}
+					} else {
+						let i = session_ctr.fetch_add(1, Ordering::SeqCst);
+						if i >= p.n_sessions {
+							break;
+						}
+						(i, false)
+					};
+					ST_SESSION[t].store(idx, Ordering::SeqCst);
+					st_tick(10);
+					let dir = format!("{}/st-{}", p.base, idx);
+					let r = st_session(&dir, p.seed, idx, growth, if growth { p.growth_progs } else { p.progs }, deadline);
+					let _ = std::fs::remove_dir_all(&dir);
+					local.merge(r);
+					if local.programs >= 40 {
+						total.lock().unwrap().merge(std::mem::take(&mut local));
+					}
+				}
+				total.lock().unwrap().merge(local);
+				ST_DONE[t].store(true, Ordering::SeqCst);
+			});
+		}
+	});
+	all_done.store(true, Ordering::SeqCst);
+	let _ = mon.join();
+	let r = std::mem::take(&mut *total.lock().unwrap());
+	r
+}
+
+fn worker_st(args: &[String]) -> i32 {
+	// --worker-st seed base secs n_threads n_sessions n_growth progs growth_progs only_idx only_growth hang_secs out
+	install_logger();
+	no_core_dumps();
+	init_thread();
+	let u = |i: usize| args[i].parse::<i64>().unwrap_or(0);
+	let p = StParams {
+		seed: args[0].parse::<u64>().unwrap_or(1),
+		base: args[1].clone(),
+		secs: u(2) as u64,
+		n_threads: u(3) as usize,
+		n_sessions: u(4) as u64,
+		n_growth: u(5) as u64,
+		progs: u(6) as usize,
+		growth_progs: u(7) as usize,
+		only: if u(8) >= 0 { Some((u(8) as u64, u(9) != 0)) } else { None },
+		hang_secs: u(10) as u64,
+		out: Some(args[11].clone()),
+	};
+	let _ = std::fs::create_dir_all(&p.base);
+	let st = st_phase(&p);
+	let _ = std::fs::write(&args[11], st.to_json().to_string());
+	0
 }
 
 // ------------------------------------------------------------------ (2) multi-thread workload
@@ -1424,7 +1667,8 @@ struct MtParams {
 	n_iter: usize,
 	n_hold: usize,
 	hang_secs: u64,
-	worker: bool,
+	/// writer 1 alone fills the data file to this size before the other threads start
+	prefill_kb: u64,
 	out: Option<String>,
 }
 
@@ -1443,6 +1687,7 @@ struct Shared {
 	counters: Mutex<BTreeMap<String, u64>>,
 	live_keys_main: AtomicU64,
 	writer_active: AtomicBool,
+	started: AtomicBool,
 	seed: u64,
 	cmd: String,
 }
@@ -1501,6 +1746,13 @@ impl Shared {
 		}
 		self.resolved.store(rp, Ordering::SeqCst);
 	}
+	/// Readers and the second writer start after writer 1's solo prefill.
+	fn wait_started(&self, tid: usize) {
+		while !self.started.load(Ordering::SeqCst) && !self.stopped() {
+			std::thread::sleep(Duration::from_millis(2));
+			self.tick(tid);
+		}
+	}
 	fn sleep_checking(&self, ms: u64) {
 		let end = Instant::now() + Duration::from_millis(ms);
 		while Instant::now() < end && !self.stopped() {
@@ -1521,6 +1773,7 @@ fn state_name(s: u64) -> &'static str {
 		7 => "iterating",
 		8 => "holding iterator (sleep)",
 		9 => "verifying",
+		10 => "in Store::new / reopen",
 		_ => "?",
 	}
 }
@@ -1716,9 +1969,16 @@ fn mt_writer(sh: &Shared, store: &Store, p: &MtParams, tid: usize, wid: u8, mut 
 	let t0 = Instant::now();
 	let mut n = 0u64;
 	let drop_pct = if wid == 0 { 15 } else { 30 };
+	if wid != 0 {
+		sh.wait_started(tid);
+	}
 	loop {
 		if sh.stopped() {
 			break;
+		}
+		let solo = !sh.started.load(Ordering::SeqCst);
+		if solo && data_mdb_size(&p.dir) >= p.prefill_kb * 1024 {
+			sh.started.store(true, Ordering::SeqCst);
 		}
 		if wid == 0 {
 			let reached = sh.live_keys_main.load(Ordering::SeqCst) >= p.target_keys;
@@ -1748,7 +2008,7 @@ fn mt_writer(sh: &Shared, store: &Store, p: &MtParams, tid: usize, wid: u8, mut 
 		// Pages a batch may dirty: the map is only enlarged between batches (check at 90 % use),
 		// so everything written after one check must fit into the remaining 10 %; with a second
 		// writer queued behind a stale check that is two batches. Allow 1/32 of the map per batch.
-		let budget = (map / 4096 / 32).clamp(8, 200);
+		let budget = if solo { 16 } else { (map / 4096 / 32).clamp(8, 200) };
 		let live_main = sh.live_keys_main.load(Ordering::SeqCst);
 		let p_del = if live_main < p.target_keys {
 			10
@@ -1961,6 +2221,7 @@ fn mt_point_reader(sh: &Shared, store: &Store, tid: usize, mut prng: Prng) {
 	let mut floor = 0usize;
 	let mut queue: VecDeque<Obs> = VecDeque::new();
 	let (mut n_some, mut n_none) = (0u64, 0u64);
+	sh.wait_started(tid);
 	while !sh.stopped() {
 		let pushed = sh.pushed.load(Ordering::SeqCst);
 		if pushed == 0 {
@@ -2278,6 +2539,7 @@ fn mt_snapshot(sh: &Shared, store: &Store, tid: usize, s: usize, hold: Option<(u
 fn mt_iter_thread(sh: &Shared, store: &Store, tid: usize, mut prng: Prng, holder: bool) {
 	init_thread();
 	let mut floor = 0usize;
+	sh.wait_started(tid);
 	while !sh.stopped() {
 		let s = if prng.chance(7, 10) { 0 } else { 1 + prng.usize_below(2) };
 		let hold = if holder {
@@ -2424,6 +2686,7 @@ fn mt_run(p: &MtParams) -> MtResult {
 		counters: Mutex::new(BTreeMap::new()),
 		live_keys_main: AtomicU64::new(0),
 		writer_active: AtomicBool::new(true),
+		started: AtomicBool::new(p.prefill_kb == 0),
 		seed: p.seed,
 		cmd: format!("c18 {}", mt_args(p).join(" ")),
 	});
@@ -2574,7 +2837,7 @@ fn worker_mt(args: &[String]) -> i32 {
 		n_iter: u(6) as usize,
 		n_hold: u(7) as usize,
 		hang_secs: u(8),
-		worker: true,
+		prefill_kb: args.get(10).and_then(|x| x.parse().ok()).unwrap_or(0),
 		out: Some(args[9].clone()),
 	};
 	let r = mt_run(&p);
@@ -3281,6 +3544,7 @@ fn mt_args(p: &MtParams) -> Vec<String> {
 		p.n_hold.to_string(),
 		p.hang_secs.to_string(),
 		p.out.clone().unwrap_or_default(),
+		p.prefill_kb.to_string(),
 	]
 }
 
@@ -3316,6 +3580,36 @@ fn mt_spawn(p: &MtParams) -> MtOutcome {
 	match (r.code, res) {
 		(Some(0), Some(res)) => MtOutcome::Done(res),
 		(c, _) => MtOutcome::Broken(format!("exit {:?}: {}", c, r.tail)),
+	}
+}
+
+enum StOutcome {
+	Done(StStats),
+	Hang(StStats, Value),
+	Broken(String),
+}
+
+fn st_spawn(p: &StParams) -> StOutcome {
+	let _ = std::fs::remove_dir_all(&p.base);
+	let _ = std::fs::create_dir_all(&p.base);
+	let out = p.out.clone().unwrap();
+	let _ = std::fs::remove_file(&out);
+	let r = run_worker(&st_args(p), &format!("{}.log", p.base), Duration::from_secs(p.secs + p.hang_secs + 240));
+	let v = read_json(&out);
+	let _ = std::fs::remove_dir_all(&p.base);
+	if r.code == Some(vcommon::monitor::EXIT_HANG) {
+		let v = v.unwrap_or(json!({}));
+		return StOutcome::Hang(StStats::from_json(&v), v.get("hang").cloned().unwrap_or(json!({})));
+	}
+	if r.timed_out {
+		return StOutcome::Broken(format!("timeout: {}", r.tail));
+	}
+	if let Some(sig) = r.signal {
+		return StOutcome::Broken(format!("signal {}: {}", sig, r.tail));
+	}
+	match (r.code, v) {
+		(Some(0), Some(v)) => StOutcome::Done(StStats::from_json(&v)),
+		(c, _) => StOutcome::Broken(format!("exit {:?}: {}", c, r.tail)),
 	}
 }
 
@@ -3377,8 +3671,8 @@ fn report_st(run: &Run, st: &StStats) {
 	run.count("st_held_outside_iterators", st.held_iters);
 	run.count("st_held_iterators_finished_after_a_later_commit", st.held_across_commit);
 	run.count("st_map_resizes_in_growth_sessions", st.resizes);
-	run.count("st_resizes_immediate_no_open_tx", LOG_RESIZE_IMMEDIATE.load(Ordering::SeqCst));
-	run.count("st_resizes_deferred_own_iterator_open", LOG_RESIZE_WAIT.load(Ordering::SeqCst));
+	run.count("st_resizes_immediate_no_open_tx", st.resizes_immediate);
+	run.count("st_resizes_deferred_own_iterator_open", st.resizes_deferred);
 	run.count("st_max_keys_in_one_space", st.max_keys_space);
 	run.count("st_distinct_nesting_fate_chains", st.chains.len() as u64);
 	run.extra(
@@ -3392,6 +3686,7 @@ fn main() {
 	let raw: Vec<String> = std::env::args().skip(1).collect();
 	for (flag, f) in [
 		("--worker-mt", worker_mt as fn(&[String]) -> i32),
+		("--worker-st", worker_st),
 		("--worker-crash", worker_crash),
 		("--worker-dump", worker_dump),
 		("--worker-probe", worker_probe),
@@ -3470,7 +3765,7 @@ fn main_san(run: &Run, scratch: &Scratch, kind: &str) {
 		n_iter: 1,
 		n_hold: 1,
 		hang_secs: 1500,
-		worker: false,
+		prefill_kb: 780,
 		out: None,
 	};
 	let res = mt_run(&p);
@@ -3495,8 +3790,6 @@ fn main_san(run: &Run, scratch: &Scratch, kind: &str) {
 
 fn main_full(run: &Run, scratch: &Scratch, seed: u64) {
 	let tier = run.tier;
-	let t_start = Instant::now();
-	let st_deadline = t_start + Duration::from_secs(tier.pick(45, 520));
 	let n_sessions: u64 = tier.pick(96, 900);
 	let n_growth: u64 = tier.pick(2, 10);
 	let progs_per_session = 8usize;
@@ -3517,7 +3810,7 @@ fn main_full(run: &Run, scratch: &Scratch, seed: u64) {
 			n_iter: 2,
 			n_hold: if i % 2 == 0 { 1 } else { 2 },
 			hang_secs: 60,
-			worker: true,
+			prefill_kb: if i % 2 == 1 { 700 } else { 0 },
 			out: Some(scratch.sub(&format!("mt-{}.json", i))),
 		})
 		.collect();
@@ -3529,9 +3822,20 @@ fn main_full(run: &Run, scratch: &Scratch, seed: u64) {
 		})
 		.collect();
 
-	let session_ctr = AtomicU64::new(0);
-	let growth_ctr = AtomicU64::new(0);
-	let st_total = Mutex::new(StStats::default());
+	let st_params = StParams {
+		seed,
+		base: scratch.sub("st"),
+		secs: tier.pick(45, 520),
+		n_threads: n_st_threads,
+		n_sessions,
+		n_growth,
+		progs: progs_per_session,
+		growth_progs: 60,
+		only: None,
+		hang_secs: 60,
+		out: Some(scratch.sub("st.json")),
+	};
+	let st_outcome: Mutex<Option<StOutcome>> = Mutex::new(None);
 	let mt_outcomes: Mutex<Vec<(usize, MtOutcome)>> = Mutex::new(vec![]);
 	let mt_next = AtomicUsize::new(0);
 	let crash_total: Mutex<Vec<CrashStats>> = Mutex::new(vec![]);
@@ -3539,38 +3843,12 @@ fn main_full(run: &Run, scratch: &Scratch, seed: u64) {
 	let probe: Mutex<Option<Value>> = Mutex::new(None);
 
 	std::thread::scope(|sc| {
-		// (1) single-thread sessions
-		for t in 0..n_st_threads {
-			let (session_ctr, growth_ctr, st_total) = (&session_ctr, &growth_ctr, &st_total);
-			let scratch = &scratch;
+		// (1) single-thread sessions: one worker process (own hang watchdog)
+		{
+			let (st_outcome, st_params) = (&st_outcome, &st_params);
 			sc.spawn(move || {
-				init_thread();
-				let mut local = StStats::default();
-				loop {
-					if Instant::now() > st_deadline {
-						break;
-					}
-					// the first threads take the growth sessions first
-					let (idx, growth) = if t < 2 && growth_ctr.load(Ordering::SeqCst) < n_growth {
-						let g = growth_ctr.fetch_add(1, Ordering::SeqCst);
-						if g < n_growth {
-							(1_000_000 + g, true)
-						} else {
-							continue;
-						}
-					} else {
-						let i = session_ctr.fetch_add(1, Ordering::SeqCst);
-						if i >= n_sessions {
-							break;
-						}
-						(i, false)
-					};
-					let dir = scratch.sub(&format!("st-{}", idx));
-					let r = st_session(&dir, seed, idx, growth, if growth { 60 } else { progs_per_session }, st_deadline);
-					let _ = std::fs::remove_dir_all(&dir);
-					local.merge(flush_st(run, r));
-				}
-				st_total.lock().unwrap().merge(local);
+				let o = st_spawn(st_params);
+				*st_outcome.lock().unwrap() = Some(o);
 			});
 		}
 		// (2) multi-thread workers
@@ -3617,8 +3895,53 @@ fn main_full(run: &Run, scratch: &Scratch, seed: u64) {
 		}
 	});
 
-	// ---- (1) report
-	let st = st_total.into_inner().unwrap();
+	// ---- (1) report, re-running a hung session alone
+	let mut st = StStats::default();
+	match st_outcome.into_inner().unwrap() {
+		Some(StOutcome::Done(r)) => st.merge(flush_st(run, r)),
+		Some(StOutcome::Hang(partial, hang)) => {
+			st.merge(flush_st(run, partial));
+			let sess = hang["session"].as_u64().unwrap_or(0);
+			let growth = hang["growth"].as_bool().unwrap_or(false);
+			let mut p2 = st_params.clone();
+			p2.only = Some((sess, growth));
+			p2.secs = 150;
+			let replay = json!({"scenario": "single-thread session", "seed": seed, "session": sess, "growth": growth,
+				"cmd": format!("c18 {}", st_args(&p2).join(" "))});
+			match st_spawn(&p2) {
+				StOutcome::Hang(_, h2) => run.violation(
+					&format!("st;event=hang;state={}", h2["state"].as_str().unwrap_or("?").replace(' ', "_")),
+					&format!("single-thread session made no progress for 60 s, reproduced when re-run alone: first {} | again {}", hang, h2),
+					replay,
+				),
+				StOutcome::Done(r) => {
+					st.merge(flush_st(run, r));
+					run.inconclusive(&format!("single-thread session {} hung once ({}) but not when re-run alone", sess, hang));
+				}
+				StOutcome::Broken(d) => run.inconclusive(&format!("single-thread session {} hung once ({}), re-run broke: {}", sess, hang, d)),
+			}
+		}
+		Some(StOutcome::Broken(d)) => {
+			// killed by a signal? only a reproduced kill is a violation
+			if d.starts_with("signal") {
+				match st_spawn(&st_params) {
+					StOutcome::Broken(d2) if d2.starts_with("signal") => run.violation(
+						&format!("st;event=worker_killed;{}", d2.split(':').next().unwrap_or("signal").replace(' ', "_")),
+						&format!("the process running the single-thread programs was killed by a signal twice: {} | {}", d, d2),
+						json!({"scenario": "single-thread sessions", "seed": seed, "cmd": format!("c18 {}", st_args(&st_params).join(" "))}),
+					),
+					StOutcome::Done(r) => {
+						st.merge(flush_st(run, r));
+						run.inconclusive(&format!("single-thread worker killed once ({}), not reproduced", d));
+					}
+					_ => run.inconclusive(&format!("single-thread worker killed once ({}), re-run inconclusive", d)),
+				}
+			} else {
+				run.inconclusive(&format!("single-thread worker broke: {}", d));
+			}
+		}
+		None => run.inconclusive("single-thread worker did not run"),
+	}
 	report_st(run, &st);
 
 	// ---- (2) report, re-running hangs / crashes alone
@@ -3659,26 +3982,18 @@ fn main_full(run: &Run, scratch: &Scratch, seed: u64) {
 				// only a reproduced hang is a violation: re-run this seed alone
 				match mt_spawn(p) {
 					MtOutcome::Hang(desc2, _) => {
+						// stable signature: where the main writer is blocked
 						let stuck = |d: &str| -> String {
-							let mut roles: Vec<String> = d
-								.split('|')
-								.next()
+							d.split("unfinished=")
+								.nth(1)
 								.unwrap_or("")
-								.trim()
-								.trim_start_matches("stuck=")
 								.split(',')
-								.map(|x| {
-									let mut it = x.split(':');
-									let role = it.next().unwrap_or("").trim_end_matches(|c: char| c.is_ascii_digit() || c == '-');
-									format!("{}:{}", role, it.next().unwrap_or(""))
-								})
-								.collect();
-							roles.sort();
-							roles.dedup();
-							roles.join(",")
+								.find_map(|x| x.trim().strip_prefix("writer-1:").map(|s| s.to_string()))
+								.unwrap_or_else(|| "writer-1:finished".to_string())
+								.replace(' ', "_")
 						};
 						run.violation(
-							&format!("mt;event=hang;stuck={}", stuck(&desc2)),
+							&format!("mt;event=hang;writer1={}", stuck(&desc2)),
 							&format!("no progress for 60 s, reproduced when the seed was re-run alone. first: {} | second: {}", desc, desc2),
 							replay,
 						);
